@@ -11,8 +11,9 @@ Open Scope N_scope.
 Definition u32 : N := 4294967296.
 Definition sub32 (a b : N) : N := (a + u32 - b) mod u32.      (* uint32 a - b *)
 
-(** msgDotLRegistry.largestFixedSize as computed by register(); the harness reads
-    the Go value and the cases file compares *)
+(** msgDotLRegistry.largestFixedSize as computed by register(): Frame/SizesGen.v recomputes it
+    from the generated message layouts (gen/CodecGen.v) and proves it equal to this number
+    (C13_largest_fixed_size); the harness also reads the Go value and the cases file compares *)
 Definition largestFixedSize : N := 153.
 
 (** frame overheads: size[4] type[1] tag[2] + count[4] for Rread / Rreaddir;
